@@ -142,17 +142,20 @@ class Projector:
                     self.recent.pop(0)
         return c
 
-    def fresh_energy(self, key, atoms):
+    def fresh_energy(self, key, atoms, bare=False):
+        """from-scratch energy of a configuration: what atoms.get_potential_energy() reports (calculator + the energy of
+        restraints such as Hookean), or -- bare -- what the calculator alone holds in its results"""
         if key not in self.efresh:
             a = atoms.copy()
             a.calc = self.fresh_factory()
             try:
-                self.efresh[key] = float(a.get_potential_energy())
+                tot = float(a.get_potential_energy())
+                self.efresh[key] = (tot, float(a.get_potential_energy(apply_constraint=False)) if a.constraints else tot)
             except Exception:  # noqa: BLE001
-                self.efresh[key] = float("nan")
+                self.efresh[key] = (float("nan"), float("nan"))
             if len(self.efresh) > 4000:
                 self.efresh.pop(next(iter(self.efresh)))
-        return self.efresh[key]
+        return self.efresh[key][1 if bare else 0]
 
     def cfg_of_energy(self, e, prefer, field=None):
         """ALL configurations (among the recently seen ones, `prefer` first) whose
@@ -170,7 +173,7 @@ class Projector:
         order = sorted(self.recent, key=lambda t: 0 if t[1] == prefer else 1)
         out = []
         for key, c, at in order:
-            f = self.fresh_energy(key, at)
+            f = self.fresh_energy(key, at, bare=field in ("calcRes", "lastRes"))   # results dictionaries hold the calculator's own energy
             if abs(f - e) <= 1e-9 * max(1.0, abs(e), abs(f)) and c not in out:
                 out.append(c)
         return out or [UNKNOWN]
